@@ -157,7 +157,7 @@ def work_peephole(unit):
             if too_many(findings):
                 break
     elif what == "families":
-        for e, ty in tx.precedence_family(4) + tx.logic_family() + tx.literal_family():
+        for e, ty in tx.precedence_family(4) + tx.paren_edge_family() + tx.logic_family() + tx.literal_family():
             n += 1
             check_expression(e, ty, int_env, stats, findings)
         for e, ty in tx.rounding_family():
@@ -333,7 +333,7 @@ def all_printer_trees(tier):
         trees += [("e", e, ty) for e, ty in tx.precedence_family(4 if tier == "thorough" else 3)]
         lf = tx.logic_family()
         trees += [("e", e, ty) for e, ty in (lf if tier == "thorough" else lf[::4])]
-        trees += [("e", e, ty) for e, ty in tx.literal_family()]
+        trees += [("e", e, ty) for e, ty in tx.literal_family() + tx.paren_edge_family()]
         trees += [("s", s, None) for s in tx.simple_statements()]
         cs = tx.compound_statements(True)
         trees += [("s", s, None) for s in (cs if tier == "thorough" else cs[::3])]
